@@ -413,11 +413,20 @@ pub fn scenarios(thorough: bool, rng: &mut StdRng) -> Vec<Scenario> {
       vec![(1, vec![Push(1), Push(2)]), (2, vec![Push(1001)])]);
     // forced replays of the protocol model's lost wake-up counterexamples (spec -> impl): Nucleo.tla TickTryFail ..
     // NRead .. RunEnd .. TickArm (cancelling and plain tick) and Notify .. TickBegin .. TickTryFail .. TickArm .. RunEnd
-    s("forced-lost-wakeup-cancelling-tick", 1, 1, vec![NewInjector(1), StartWriter(0), JoinWriters, Reparse(1), Rule("main", "tick.try_lock_failed", "pool", "run.end"), Tick(0), DrainNotified(0)],
+    // the schedules that used to lose the wake-up (the run finishes entirely - unlock, read of the flag - while the
+    // tick sits between its failed lock attempt and arming the flag; the run is held right before it unlocks until the
+    // reacting tick has armed the flag), plus the windows of the repaired hand-over
+    s("forced-lost-wakeup-cancelling-tick", 1, 1, vec![NewInjector(1), StartWriter(0), JoinWriters, Reparse(1), Rule("main", "tick.try_lock_failed", "pool", "run.done"), Tick(0), DrainNotified(0)],
       vec![(1, vec![Extend(vec![0, 1, 2])])]);
-    s("forced-lost-wakeup-plain-tick", 1, 1, vec![NewInjector(1), Reparse(1), Tick(50), StartWriter(0), JoinWriters, Tick(0), Rule("main", "tick.try_lock_failed", "pool", "run.end"), Tick(0), DrainNotified(0)],
+    s("forced-lost-wakeup-plain-tick", 1, 1, vec![NewInjector(1), Reparse(1), Tick(50), StartWriter(0), JoinWriters, Tick(0), Rule("main", "tick.try_lock_failed", "pool", "run.done"), Tick(0), DrainNotified(0)],
       vec![(1, vec![Extend(vec![0, 1, 2])])]);
     s("forced-lost-wakeup-notify-before-unlock", 1, 1, vec![NewInjector(1), StartWriter(0), JoinWriters, Reparse(1), Tick(0), Rule("pool", "run.end", "main", "tick.armed"), DrainNotified(0)],
+      vec![(1, vec![Extend(vec![0, 1, 2])])]);
+    s("forced-unlock-before-second-attempt", 1, 1, vec![NewInjector(1), StartWriter(0), JoinWriters, Reparse(1), Rule("pool", "run.unlocked", "main", "tick.retry_lock"), Tick(0), DrainNotified(0)],
+      vec![(1, vec![Extend(vec![0, 1, 2])])]);
+    s("forced-second-attempt-before-unlock", 1, 1, vec![NewInjector(1), StartWriter(0), JoinWriters, Reparse(1), Rule("pool", "run.end", "main", "tick.retry_lock"), Tick(0), DrainNotified(0)],
+      vec![(1, vec![Extend(vec![0, 1, 2])])]);
+    s("forced-arm-between-unlock-and-flag-read", 1, 1, vec![NewInjector(1), Reparse(1), Tick(50), StartWriter(0), JoinWriters, Tick(0), Rule("pool", "run.unlocked", "main", "tick.armed"), Tick(0), DrainNotified(0)],
       vec![(1, vec![Extend(vec![0, 1, 2])])]);
     // adversarial schedules for the spawn / notify hand-over: the whole run happens before the UI thread does anything
     // else after spawning it (rules that cannot be honoured by the code under test expire)
